@@ -706,6 +706,61 @@ pub fn c11(thorough: bool, seed: u64) -> CheckOutput {
         step_limit: 0,
     };
     let mut acc = bulk(n, seed, &sp, Some(tr), check_c11);
+    // front end: --min-opcodes / --max-opcodes through the built CLI (unseeded batch runs); only the
+    // hook-free bound on the decoded total applies there
+    if std::env::var("PFV_CLI").is_ok() {
+        let grid: Vec<(usize, usize)> = vec![(0, 0), (0, 1), (1, 1), (2, 2), (7, 3), (3, 7), (10, 10), (10, 50), (50, 10), (60, 300), (120, 121), (0, 200)];
+        let samples = if thorough { 300 } else { 40 };
+        let grid_ref = &grid;
+        let fe = par_run(
+            grid.len() * 6,
+            Acc::new,
+            |i, acc| {
+                let (min, max) = grid_ref[i / 6];
+                let proto = (i % 6) as u8;
+                let mut args: Vec<String> = vec![
+                    "--protocol".into(), proto.to_string(), "--min-opcodes".into(), min.to_string(), "--max-opcodes".into(), max.to_string(),
+                ];
+                if i % 2 == 0 {
+                    args.extend(["--mutation-rate", "1.0", "--mutators", "stringlen", "offbyone", "memoindex"].iter().map(|s| s.to_string()));
+                }
+                match cli_batch(&args, samples, &[]) {
+                    Err(m) => acc.inconclusive.push(format!("CLI batch run failed: {}", m)),
+                    Ok(files) => {
+                        for bytes in &files {
+                            acc.evaluations += 1;
+                            let Ok(l) = lex(bytes) else {
+                                acc.count("undecodable_outputs_not_judged_here", 1);
+                                continue;
+                            };
+                            acc.count("cli_files_counted", 1);
+                            let hi = max.max(min);
+                            let total = l.ins.len();
+                            if total < min + 1 || total > 3 * hi + 4 {
+                                let msg = format!(
+                                    "CLI --protocol {} --min-opcodes {} --max-opcodes {} wrote a pickle of {} opcodes, outside [{}..{}]",
+                                    proto, min, max, total, min + 1, 3 * hi + 4
+                                );
+                                acc.violate(Violation {
+                                    property: "C11".into(),
+                                    signature: format!("C11:cli_total:P{}", proto),
+                                    message: msg.clone(),
+                                    replay: json!({"kind": "c11-cli", "property": "C11", "protocol": proto, "min": min, "max": max,
+                                        "message": msg, "output_hex": hex(&bytes[..bytes.len().min(4096)])}),
+                                });
+                                break;
+                            }
+                        }
+                    }
+                }
+            },
+            |a, b| a.merge(b),
+        );
+        acc.merge(fe);
+        if acc.get("cli_files_counted") < 500 {
+            acc.inconclusive.push("too few CLI outputs counted".into());
+        }
+    }
     // hook-free part also on unsafe configurations (only the decoded-total bound applies there)
     if acc.get("cases_without_run_event") > 0 {
         acc.inconclusive.push("Run events missing from the hook log".into());
